@@ -85,23 +85,18 @@ def run_iso(ctx, binp, items, label):
         if r['n1'] == 0:
             st['within1'] += 1
             continue
-        why = judge(r)
+        # content crossing a canvas edge: stroked curves are flattened differently by tiny-skia depending on the clip
+        # (direct, layered and reference renderings all differ by up to ~40 levels along the edge): only > 32 levels count
+        why = judge(r, crossing=bool(r.get('crossing')))
         if why is None:
             st['noisy'] += 1
-            continue
-        if r.get('frame_bad', 0) > 0:
-            # genuine defect (C14_nested_layer_covers_content_refuted): a nested layer clamped against the
-            # untranslated max_bbox loses content that is on the canvas
-            st['nested_clamp'] = st.get('nested_clamp', 0) + 1
-            ctx.known_or_violation('nested-layer-clamp', "%s: %s [mode %s, view %s]" % (label, why, m, c),
-                                   dict(op='c14-iso', doc=d, mode=m, seed=s, cfg=c, result=r))
             continue
         if r.get('ulp_flip'):
             st['ulp_flip'] = st.get('ulp_flip', 0) + 1
             ctx.known_or_violation('filter-region-ulp', "%s: %s [mode %s, view %s]" % (label, why, m, c),
                                    dict(op='c14-iso', doc=d, mode=m, seed=s, cfg=c, result=r))
             continue
-        if r.get('crossing') and not r.get('ref'):
+        if r.get('crossing') and not r.get('ref') and not c.startswith('plain'):
             # content crosses a canvas edge and the no-crossing reference canvas would be too large: tiny-skia's
             # path clipper makes the direct rendering itself unreliable here; not judged
             st['edge_class'] += 1
@@ -156,7 +151,7 @@ def run(ctx):
     ]
     ctx.assumptions = [
         "per-pixel compositing is exact rational source-over; 8-bit quantisation (+-1 per layer) is observed, not proved",
-        "C14_layer_covers_content: device box within +-2^29 (outside: C14_layer_covers_content_refuted, class huge-group-dropped)",
+        "C14_layer_covers_content / C14_nested_layer_covers_content: device box within +-2^29 (outside: C14_layer_covers_content_refuted, class huge-group-dropped)",
         "content uses normal blending (documents with mix-blend-mode other than normal are skipped by the oracle)",
     ]
     broken = ctx.translate()
@@ -187,6 +182,22 @@ def run(ctx):
     if tr['distinct'] < 200:
         ctx.violation("layer-trace correspondence recorded only %d layer events (trace hook missing or silent)" % tr['distinct'],
                       dict(op='layer-trace', renders=len(jobs)), found_input=False)
+
+    # nested chains: the clamp box a layer hands to its children (source-derived layer_child_max) vs the recorded one
+    ch = rc.chain_trace_correspondence(ctx, binp, 60 if quick else 600)
+    ctx.cov['chain_trace'] = ch
+    ctx.log("chain-trace: %s" % ch)
+    # regression: the witness of the fixed nested clamp (ffdf909) must render like the same document without isolation
+    wit = open(vlib.VERIF + '/corpus/witness/C14-nested-layer-clamp.svg').read().strip()
+    o = ctx.rvh_batch(binp, 'render-pair', ["-\t%s\t1,0,0,1,0,0\t%s\t1,0,0,1,0,0\t100\t100\t1"
+                                            % (wit.replace(' style="isolation:isolate"', ''), wit)])[0]
+    try:
+        r = json.loads(o)
+    except (TypeError, ValueError):
+        r = {}
+    if r.get('ndiff', 1) != 0 or r.get('nonblank', 0) == 0:
+        ctx.violation("regression: three nested isolated groups lose content again (nested layers clamped in the wrong frame; fixed in ffdf909): %s" % str(r)[:200],
+                      dict(op='render-pair', docA=wit.replace(' style="isolation:isolate"', ''), docB=wit, canvas=[100, 100], result=r))
 
     # ------------------------------------------------------------------ S: e2e-C14 on the corpus (nothing crosses a canvas edge)
     stats = {}
@@ -243,6 +254,14 @@ def run(ctx):
     st = run_iso(ctx, binp, xitems, "e2e-C14 extents")
     stats['extents'] = st
     ctx.log("e2e-C14 extents: %s" % st)
+    # outlines outside the canvas whose miter tip / square-cap corner reaches back in (seeded change C14-5): the direct and
+    # the isolated rendering are compared as they are (no reference: the reference would excuse a wrong DIRECT rendering);
+    # only deltas > 32 levels count there (tiny-skia clip noise on HEAD: one pixel, 16 levels)
+    mitems = [(rc.gen_miter_doc(rng)[0], rng.choice(['root', 'all']), rng.below(1 << 30) + 1,
+               "plain:%s:%s:%s" % (rng.choice([1, 1, 2]), rng.choice([0, 0.37]), rng.choice([0, 0.13]))) for _ in range(150 if quick else 1500)]
+    st = run_iso(ctx, binp, mitems, "e2e-C14 miter tips")
+    stats['miter_tips'] = st
+    ctx.log("e2e-C14 miter tips: %s" % st)
     ctx.add_sample(dict(op='c14-iso', doc=items[0][0], mode=items[0][1], cfg=items[0][3]))
     ctx.add_sample(dict(op='c14-iso', doc='@' + files[len(files) // 3], mode='all', cfg='fit:1:0.37:0.61'))
     ctx.cov['e2e'] = stats
